@@ -19,7 +19,28 @@ def run(ctx):
         units += R.UNITS
     except ImportError:
         pass
+    units += P.EXPR_UNITS
     ctx.pyvc(units, dict((u.name, MON) for u in units))
+    # the operator table the expression units take their precedences from is the C++ one for the operators it lists:
+    # * and / bind tighter than + and -, equal within each pair, all left-associative
+    import ast as _ast
+    import os as _os
+    from checklib import REPO as _REPO
+    tbl = None
+    for n in _ast.parse(open(_os.path.join(_REPO, "shroud/declast.py")).read()).body:
+        if isinstance(n, _ast.Assign) and any(isinstance(t, _ast.Name) and t.id == "OPINFO_MAP" for t in n.targets) \
+                and isinstance(n.value, _ast.Dict):
+            try:
+                tbl = dict((k.value, tuple(_ast.literal_eval(a) for a in v.args)) for k, v in zip(n.value.keys, n.value.values))
+            except Exception:
+                tbl = None
+    cxx_level = {"*": 2, "/": 2, "%": 2, "+": 1, "-": 1}
+    ok = bool(tbl) and all(op in cxx_level and len(v) == 2 and v[1] == "LEFT" for op, v in tbl.items()) and all(
+        (tbl[a][0] < tbl[b][0]) == (cxx_level[a] < cxx_level[b]) for a in tbl for b in tbl)
+    ctx.item("C09/T1/OPINFO_MAP:cxx-precedence", ok,
+             "the operator table %r does not order its operators as C++ does (multiplicative above additive, left-associative)" % (tbl,),
+             sample={"table": tbl}, confirm=lambda: ctx.monitor("m_roundtrip", "search", 3000, ctx.seed,
+                                                                  json.dumps({"must_contain": ["grouped as"]})))
     # frame condition of the renderers and queries: producing a rendering of a declaration does not change the
     # declaration (effect inference over the real source, interprocedural: parameter 0 is never mutated, neither
     # directly nor by something drawn from it nor through a callee)
@@ -47,15 +68,17 @@ def run(ctx):
                                              json.dumps({"must_contain": ["changed the declaration"]})))
     ctx.item("C09/E1/renderers-found", nfound >= 25, "only %d renderer/query methods found (vacuity guard)" % nfound)
     ctx.trusted += [
-        "token stream model: RecursiveDescent.next advances by one token (trusted); sub-parsers expression/declaration "
-        "consume >= 1 token, do not end on a comma, may raise RuntimeError (contract, not proved)",
+        "token stream model: RecursiveDescent.next advances by one token (its own units are under C17); the sub-parser "
+        "declaration consumes >= 1 token, does not end on a comma, may raise RuntimeError (contract, not proved); "
+        "expression / primary / identifier are proved against exactly that contract plus the precedence clauses",
+        "expression trees are abstracted by the precedence of their root (ghost field of the node constructors)",
         "printer oracle W1-W3/WX (see contracts/todict_print.py)",
     ]
     ctx.not_covered += [
         "agreement with a C++ compiler: only through the bounded monitor (g++ static_assert(std::is_same<...>) between ~290 "
         "declarations and shroud's rendering of them), no contract",
-        "ExprParser.expression precedence shape, Parser.declaration_specifier/declarator/pointer, gen_decl renderings: "
-        "bounded round-trip monitor m_roundtrip only",
+        "Parser.declaration_specifier/declarator/pointer: bounded round-trip monitor m_roundtrip only; termination of "
+        "the expression parser (every call consumes a token, not proved as a variant)",
     ]
     n = 1200 if ctx.tier == "quick" else 20000
     r = ctx.monitor("m_roundtrip", "search", n, ctx.seed)
